@@ -125,7 +125,7 @@ func (c *Ctx) WantSample() bool { return len(c.Rep.Samples) < 6 }
 // Violation records a violation; only the first (minimal) example per signature is kept.
 func (c *Ctx) Violation(sig, desc string, cs any, obs string) {
 	c.Rep.VioCounts[sig]++
-	if c.Rep.VioCounts[sig] > 1 {
+	if c.Rep.VioCounts[sig] > 3 {
 		return
 	}
 	raw, err := json.Marshal(cs)
@@ -401,7 +401,7 @@ func coordinator(d *Driver, tier string) int {
 
 	// merge
 	m := newCtx(d.ID, tier, 0, 1).Rep
-	vio := map[string]Violation{}
+	vio := map[string][]Violation{}
 	for i, r := range results {
 		if r.rep == nil {
 			fmt.Fprintf(os.Stderr, "INFRA: worker %d of %s failed: %v\n%s\n", i, d.ID, r.err, r.tail)
@@ -431,9 +431,7 @@ func coordinator(d *Driver, tier string) int {
 			m.Notes[k] = v
 		}
 		for _, v := range r.rep.Violations {
-			if old, ok := vio[v.Sig]; !ok || v.Ord < old.Ord {
-				vio[v.Sig] = v
-			}
+			vio[v.Sig] = append(vio[v.Sig], v)
 		}
 		for _, s := range r.rep.Samples {
 			if len(m.Samples) < 6 {
@@ -465,31 +463,47 @@ func coordinator(d *Driver, tier string) int {
 	var lines []string
 	nUnlisted := 0
 	repDir := filepath.Join(Root(), "replays", d.ID)
+	var unreproduced []string
 	for _, s := range sigs {
-		v := vio[s]
+		cands := vio[s]
+		sort.Slice(cands, func(i, j int) bool { return cands[i].Ord < cands[j].Ord })
+		if len(cands) > 4 {
+			cands = cands[:4]
+		}
 		os.MkdirAll(repDir, 0o755)
 		file := filepath.Join(repDir, sigFile(s))
-		raw, _ := json.MarshalIndent(v, "", " ")
-		os.WriteFile(file, raw, 0o644)
-		// confirm 5x with identical observation
-		ok := true
-		for k := 0; k < 5 && ok; k++ {
-			out, _ := exec.Command(self, d.ID, "--tier", tier, "--replay", file).CombinedOutput()
-			var ro replayOut
-			got := false
-			for _, ln := range strings.Split(string(out), "\n") {
-				if strings.HasPrefix(ln, "REPLAY ") {
-					got = json.Unmarshal([]byte(ln[7:]), &ro) == nil
+		var v Violation
+		confirmed := false
+		for _, cand := range cands {
+			raw, _ := json.MarshalIndent(cand, "", " ")
+			os.WriteFile(file, raw, 0o644)
+			// confirm 5x in a fresh process with identical observation
+			ok := true
+			for k := 0; k < 5 && ok; k++ {
+				out, _ := exec.Command(self, d.ID, "--tier", tier, "--replay", file).CombinedOutput()
+				var ro replayOut
+				got := false
+				for _, ln := range strings.Split(string(out), "\n") {
+					if strings.HasPrefix(ln, "REPLAY ") {
+						got = json.Unmarshal([]byte(ln[7:]), &ro) == nil
+					}
+				}
+				if !got || ro.Sig != cand.Sig || ro.Obs != cand.Obs {
+					fmt.Fprintf(os.Stderr, "note: replay %d of an example of %q did not reproduce in a fresh process (got sig %q obs %q; recorded obs %q)\n%s\n", k, cand.Sig, ro.Sig, ro.Obs, cand.Obs, tailStr(string(out), 600))
+					ok = false
 				}
 			}
-			if !got || ro.Sig != v.Sig || ro.Obs != v.Obs {
-				fmt.Fprintf(os.Stderr, "INFRA: replay %d of %s did not reproduce (sig %q obs %q; wanted sig %q obs %q)\n%s\n", k, file, ro.Sig, ro.Obs, v.Sig, v.Obs, tailStr(string(out), 1500))
-				ok = false
+			if ok {
+				v, confirmed = cand, true
+				break
 			}
 		}
-		if !ok {
-			// not reproducible: never reported as violation (DESIGN §2.7); the run is broken infrastructure.
-			return 2
+		if !confirmed {
+			// never reported as a violation (DESIGN §2.7): an observation that a fresh process does not
+			// reproduce depends on state left behind by earlier cases of the same worker.
+			os.Remove(file)
+			unreproduced = append(unreproduced, s)
+			continue
 		}
 		listed := false
 		for _, f := range findings {
@@ -525,6 +539,7 @@ func coordinator(d *Driver, tier string) int {
 		"counters":                      m.Counters,
 		"max_depth":                     m.MaxDepth,
 		"violation_signatures":          m.VioCounts,
+		"unreproduced_signatures":       unreproduced,
 		"workers":                       n,
 		"notes":                         m.Notes,
 	}
@@ -557,6 +572,10 @@ func coordinator(d *Driver, tier string) int {
 	}
 	for _, l := range lines {
 		fmt.Println(l)
+	}
+	if len(unreproduced) > 0 && exit == 0 {
+		fmt.Fprintf(os.Stderr, "INFRA: %d violation signature(s) were observed by workers but no example reproduced in a fresh process: %v\n", len(unreproduced), unreproduced)
+		exit = 2
 	}
 	fmt.Printf("%s %s: %d cases (%d non-trivial), %d outcome classes, %d violation signatures (%d unlisted), exhaustive=%v, %.1fs\n",
 		d.ID, tier, m.Evaluations, m.NonTrivial, outcomes, len(sigs), nUnlisted, len(m.Caps) == 0, time.Since(t0).Seconds())
